@@ -13,6 +13,8 @@
 package verifsim
 
 import (
+	"os"
+	"runtime"
 	"sort"
 	"syscall"
 	"unsafe"
@@ -139,8 +141,8 @@ type state struct {
 	opBudget [MaxTasks + 1]uint64
 	opCount  [MaxTasks + 1]uint64
 	opOver   [MaxTasks + 1]bool
-	pathHash  [MaxTasks + 1]uint64
-	switches  uint64
+	pathHash [MaxTasks + 1]uint64
+	switches uint64
 
 	log  []Event
 	nlog int
@@ -153,6 +155,11 @@ type state struct {
 }
 
 var s state
+
+var (
+	jitter      = os.Getenv("VERIF_JITTER") != ""
+	jitterState uint64
+)
 
 type Abort struct{ Task int32 }
 
@@ -410,9 +417,22 @@ func kindOf(site int32) uint8 {
 //go:norace
 func Yield(site int32) {
 	if !s.active {
-		if s.opBudget[MaxTasks] != 0 {
+		if jitter {
+			// The library runs goroutines of its own (census): the simulator does
+			// not own that schedule. Shake it, so that an outcome which depends on
+			// who gets there first shows both faces; such findings are reported
+			// with replayable=false.
+			jitterState = jitterState*6364136223846793005 + 1442695040888963407
+			if jitterState>>59 == 0 {
+				runtime.Gosched()
+			}
+		}
+		// (with jitter on, library goroutines of their own reach this code
+		// concurrently and a panic in one of them could not be recovered by the
+		// harness: no budget then; the worker's wall-clock watchdog remains)
+		if b := s.opBudget[MaxTasks]; b != 0 && !jitter {
 			s.opCount[MaxTasks]++
-			if s.opCount[MaxTasks] > s.opBudget[MaxTasks] {
+			if s.opCount[MaxTasks] > b {
 				s.opOver[MaxTasks] = true
 				panic(Abort{-1}) // raised again at every yield until the harness disarms
 			}
